@@ -34,8 +34,15 @@ fn param_type(kd: &str) -> &'static str {
         "sview" => "S",
         "sptr" => "&[]i32",
         "ptr" => "&i32",
+        // in the signature of an extern function these are a view of / a pointer to an array without length
+        "xaview" => "[]i32",
+        "xsptr" => "&[]i32",
         _ => "&&i32",
     }
+}
+
+pub fn is_extern_kind(kd: &str) -> bool {
+    kd == "xaview" || kd == "xsptr"
 }
 
 /// the type of g's parameter: a pointer to what q stands for
@@ -52,7 +59,7 @@ fn forward_type(kd: &str) -> &'static str {
 fn access(name: &str, kd: &str) -> String {
     match kd {
         "word" | "sview" => format!("{name}.m"),
-        "aview" | "sptr" => format!("{name}[0usize]"),
+        "aview" | "sptr" | "xaview" | "xsptr" => format!("{name}[0usize]"),
         _ => name.to_string(),
     }
 }
@@ -61,7 +68,7 @@ fn caller_var(kd: &str) -> &'static str {
     match kd {
         "value" | "ptr" => "x",
         "word" => "w",
-        "aview" | "sptr" => "arr",
+        "aview" | "sptr" | "xaview" | "xsptr" => "arr",
         "sview" => "s",
         _ => "p",
     }
@@ -81,6 +88,12 @@ pub fn render(ps: &[Param]) -> String {
     l.push("struct S { m: i32, a: [2]i32 }".into());
     l.push("word64 W { m: i32, n: i32 }".into());
     for (i, p) in ps.iter().enumerate() {
+        if p.way == "xfwd" || p.way == "xfwdamp" {
+            l.push(format!("extern fn gx{}(r: &[]i32)", i + 1));
+            l.push("{".into());
+            l.push(format!("\tr[0usize] = {}i32;", 11 + i));
+            l.push("}".into());
+        }
         if p.way == "forward" {
             l.push(format!("fn g{}(r: {})", i + 1, forward_type(&p.kd)));
             l.push("{".into());
@@ -89,7 +102,8 @@ pub fn render(ps: &[Param]) -> String {
         }
     }
     let sig: Vec<String> = ps.iter().enumerate().map(|(i, p)| format!("q{}: {}", i + 1, param_type(&p.kd))).collect();
-    l.push(format!("fn f({})", sig.join(", ")));
+    let ext = if ps.iter().any(|p| is_extern_kind(&p.kd)) { "extern " } else { "" };
+    l.push(format!("{}fn f({})", ext, sig.join(", ")));
     l.push("{".into());
     l.extend(ty::CTX_LOCALS.iter().map(|s| s.to_string()));
     for (i, p) in ps.iter().enumerate() {
@@ -99,6 +113,8 @@ pub fn render(ps: &[Param]) -> String {
             "copy" => format!("var c{}: i32 = {}; c{} = {}i32;", i + 1, access(&q, &p.kd), i + 1, 11 + i),
             "write" => format!("{} = {}i32;", access(&q, &p.kd), 11 + i),
             "forward" => format!("g{}({}{});", i + 1, if p.kd == "pptr" { "&&" } else { "&" }, q),
+            "xfwd" => format!("gx{}({});", i + 1, q),
+            "xfwdamp" => format!("gx{}(&{});", i + 1, q),
             _ => String::new(),
         };
         if !stmts.is_empty() {
